@@ -329,4 +329,4 @@ def _obligations():
 
 
 def obligations():
-    return _obligations() + [constructors_obligation(['cryomotl.Motl', 'cryomotl.EmMotl']), labels_obligation("C05"), selectors_obligation("C05"), mutations_obligation("C05"), effects_obligation("C05"), plumbing_obligation("C05"), overrides_obligation("C05"), options_obligation("C05"), handlers_obligation("C05")]
+    return _obligations() + [constructors_obligation(['cryomotl.Motl', 'cryomotl.EmMotl']), labels_obligation("C05"), selectors_obligation("C05"), mutations_obligation("C05"), loopstate_obligation("C05"), effects_obligation("C05"), plumbing_obligation("C05"), overrides_obligation("C05"), options_obligation("C05"), handlers_obligation("C05")]
